@@ -505,3 +505,109 @@ def fold_url_regex(fi):
         elif isinstance(st, ast.Return):
             return ev(st.value, {})
     raise AnalysisError("C16: _create_url_regex has no return")
+
+
+_base_check_c16 = check
+
+
+def check(ctx):            # noqa: F811  (extends the rules above)
+    _base_check_c16(ctx)
+    printers(ctx, ctx.prog)
+
+
+def printers(ctx, prog):
+    """URL printer / parser assembly and the envelope readers' dispatch: each branch under exactly its own test, every path returns the object"""
+    import ast
+    from ..astutil import norm_text, dotted, is_const
+    from .. import rules as R
+    U = "lbry.schema.url"
+    ps = ctx.fa(f"{U}.PathSegment.__str__")
+    R.effect_table(ctx, "C16-D4/PRINT", ps, ["self.claim_id is not None", "self.amount_order is not None"], [
+        ("return f'{self.name}:{self.claim_id}'", "self.claim_id is not None", "a segment with claim id prints name:claim_id"),
+        ("return f'{self.name}${self.amount_order}'", "self.claim_id is None and self.amount_order is not None", "a segment with amount order prints name$order"),
+        ("return self.name", "self.claim_id is None and self.amount_order is None", "a bare segment prints its name"),
+    ], "URL printer: ")
+    up = ctx.fa(f"{U}.URL.parts")
+    R.effect_table(ctx, "C16-D4/PRINT", up, ["self.has_stream_in_channel", "self.has_channel"], [
+        ("return (self.channel, self.stream)", "self.has_stream_in_channel", "channel/stream URLs print channel first, then stream"),
+        ("return (self.channel,)", "not self.has_stream_in_channel and self.has_channel", "channel URLs print the channel"),
+        ("return (self.stream,)", "not self.has_stream_in_channel and not self.has_channel", "stream URLs print the stream"),
+    ], "URL printer: ")
+    us = ctx.fa(f"{U}.URL.__str__")
+    r = R.single_return_value(us)
+    ok = r is not None and norm_text(r.value) == norm_text(ast.parse("f\"lbry://{'/'.join(str(p) for p in self.parts)}\"", mode="eval").body)
+    ctx.ob("C16-D4/PRINT", ok, us.site(), "URL printer: lbry:// followed by the parts joined with '/'", detail="" if ok else norm_text(r.value) if r else "", func=us.fi.qualname)
+    for nm, want in (("has_channel", "self.channel is not None"), ("has_stream", "self.stream is not None"), ("has_stream_in_channel", "self.has_channel and self.has_stream")):
+        f = ctx.fa(f"{U}.URL.{nm}")
+        r = R.single_return_value(f)
+        ctx.ob("C16-D4/PRINT", r is not None and R.same_test(r.value, want), f.site(), f"URL.{nm} == {want}", func=f.fi.qualname)
+    pa = ctx.fa(f"{U}.URL.parse")
+    u = pa.fi.params()[1]
+    R.effect_table(ctx, "C16-D4/PARSE", pa, ["match is None", "parts[f'{segment}_name'] is not None", "'channel_with_stream' in segments"], [
+        (f"match = re.match(URL_REGEX, {u})", "", "the URL is matched against the grammar from its first character"),
+        ("segments[segment] = PathSegment(parts[f'{segment}_name'], parts[f'{segment}_claim_id'], parts[f'{segment}_amount_order'])", "parts[f'{segment}_name'] is not None",
+         "every named group that matched becomes a segment with its own name, claim id and amount order"),
+        ("segments['channel'] = segments['channel_with_stream']", "'channel_with_stream' in segments", "channel/stream form: the channel part …"),
+        ("segments['stream'] = segments['stream_in_channel']", "", "… and the stream inside it"),
+        ("return cls(segments.get('stream', None), segments.get('channel', None))", "", "the URL is (stream, channel) in the tuple's field order"),
+    ], "URL parser: ")
+    R.refusal_table(ctx, "C16-D4/PARSE", pa, [("Invalid LBRY URL", "match is None")], "URL parser")
+    for x in pa.stmts(ast.Assign):
+        if norm_text(x) == "segments['stream'] = segments['stream_in_channel']":
+            ok = norm_text(R.prev_stmt(x) or ast.Pass()) == "segments['channel'] = segments['channel_with_stream']"
+            ctx.ob("C16-D4/PARSE", ok, pa.site(x), "URL parser: both halves of the channel/stream form are set in the same branch", func=pa.fi.qualname)
+    lp = pa.stmts(ast.For)
+    ok = len(lp) == 1 and norm_text(lp[0].iter) == "('channel', 'stream', 'channel_with_stream', 'stream_in_channel')" and dotted(lp[0].target) == "segment" and \
+        any(norm_text(x) == "parts = match.groupdict()" for x in pa.stmts(ast.Assign))
+    ctx.ob("C16-D4/PARSE", ok, pa.site(), "URL parser: the four segment kinds of the grammar are read from the match's named groups", func=pa.fi.qualname)
+    uc = prog.cls(f"{U}.URL")
+    flds = [norm_text(x.target) for x in uc.node.body if isinstance(x, ast.AnnAssign)]
+    ctx.ob("C16-D4/PARSE", flds[:2] == ["stream", "channel"], f"lbry/schema/url.py:{uc.node.lineno}", "URL's fields are (stream, channel) — the order parse() fills", detail=str(flds))
+    # envelopes: every path returns the object / bytes
+    B = "lbry.schema.base.Signable"
+    for qn in (f"{B}.to_bytes", "lbry.schema.purchase.Purchase.to_bytes"):
+        f = ctx.fa(qn)
+        r = R.single_return_value(f)
+        ok = r is not None and norm_text(r.value) == "bytes(pieces)" and not R.atomic_facts_at(f, r)[0] and \
+            [norm_text(x.value) for x in f.stmts(ast.Assign) if any(dotted(t) == "pieces" for t in x.targets)] == ["bytearray()"]
+        ctx.ob("C16-D1/ENVELOPE", ok, f.site(), f"{f.fi.short}: the bytes returned are exactly the assembled pieces", func=qn, key=f"C16-D1/ENVELOPE|{qn}|returns")
+    for qn, var in ((f"{B}.from_bytes", "signable"), ("lbry.schema.purchase.Purchase.from_bytes", "purchase")):
+        f = ctx.fa(qn)
+        r = [x for x in f.stmts(ast.Return)]
+        p = f.path([f.cfg.entry], [f.cfg.exit], avoid=lambda n: n.kind == "return", include_exc=False)
+        ok = len(r) == 1 and dotted(r[0].value) == var and p is None
+        ctx.ob("C16-D1/ENVELOPE", ok, f.site(), f"{f.fi.short}: the parsed object is returned on every accepting path", func=qn, key=f"C16-D1/ENVELOPE|{qn}|returns")
+    pf = ctx.fa("lbry.schema.purchase.Purchase.from_bytes")
+    d = pf.fi.params()[1]
+    R.effect_table(ctx, "C16-D1/ENVELOPE", pf, [f"purchase.has_start_byte({d})"], [
+        (f"purchase.message.ParseFromString({d}[1:])", f"purchase.has_start_byte({d})", "a purchase with the start byte is parsed from the bytes after it"),
+    ], "Purchase.from_bytes: ")
+    R.refusal_table(ctx, "C16-D1/ENVELOPE", pf, [("does not start with correct byte", f"not purchase.has_start_byte({d})")], "Purchase.from_bytes")
+    cf = ctx.fa("lbry.schema.claim.Claim.from_bytes")
+    d = cf.fi.params()[1]
+    R.effect_table(ctx, "C16-D1/LEGACY", cf, [f"{d}[0] == ord('{{')", f"{d}[0] not in (0, 1)"], [
+        (f"return super().from_bytes({d})", "", "the current envelope is tried first"),
+        ("claim.version = 0", f"{d}[0] == ord('{{')", "bytes starting with '{' are the old JSON schema"),
+        (f"compat.from_old_json_schema(claim, {d})", f"{d}[0] == ord('{{')", "…decoded by the JSON migration"),
+        ("claim.version = 1", f"not {d}[0] == ord('{{') and {d}[0] not in (0, 1)", "bytes that start neither with '{' nor with an envelope version are the v1 protobuf"),
+        (f"compat.from_types_v1(claim, {d})", f"not {d}[0] == ord('{{') and {d}[0] not in (0, 1)", "…decoded by the v1 migration"),
+        ("return claim", "", "the migrated claim is returned"),
+    ], "legacy claims: ")
+    hs = [h for t_ in cf.stmts(ast.Try) for h in t_.handlers]
+    bare = [x for x in cf.stmts(ast.Raise) if x.exc is None]
+    ok = len(hs) == 1 and norm_text(hs[0].type) == "DecodeError" and len(bare) == 1 and cf.guarded(bare[0], f"not {d}[0] == ord('{{') and not {d}[0] not in (0, 1)")[0]
+    ctx.ob("C16-D1/LEGACY", ok, cf.site(), "legacy claims: only a DecodeError of the current envelope falls back; bytes that do carry an envelope version re-raise it", func=cf.fi.qualname,
+           key="C16-D1/LEGACY|reraise")
+    fu = ctx.fa("lbry.schema.attrs.Fee.update")
+    a, c, m = fu.fi.params()[1:4]
+    R.refusal_table(ctx, "C16-D3/FEE", fu, [
+        ("please specify a fee currency", f"{m} and not {c}"),
+        ("Missing or unknown currency", f"{m} and {c} and {c} not in ('lbc', 'btc', 'usd')"),
+        ("please specify a fee amount.", f"not {m} and {c}"),
+        ("please specify a fee amount and currency", f"{a} and not self.currency"),
+    ], "Fee.update")
+    R.effect_table(ctx, "C16-D3/FEE", fu, [m, c, f"{c} not in ('lbc', 'btc', 'usd')", a, "self.currency"], [
+        (f"{c} = ({c} or self.currency or '').lower()", m, "the currency given (or the one already set) is lower-cased"),
+        (f"setattr(self, {c}, Decimal({m}))", f"{m} and {c} and not {c} not in ('lbc', 'btc', 'usd')", "the amount is set through the setter of that currency (lbc / btc / usd)"),
+        (f"self.address = {a}", f"{a} and self.currency", "the address is set when a currency is known"),
+    ], "Fee.update: ")
